@@ -294,10 +294,14 @@ def run(chk: Check):
             if r.violated or missing:
                 raise tlc.TLCFailure("MC_Live %s %s violated=%s missing=%s\n%s" % (mode, tr, r.violated, missing, r.out[-3000:]))
             if mode == "last":
-                behs, r2 = tlc.behaviours("MC_Live", cfg_text=gen % (mode, tr, ov, chk.pick(3, 5)))
+                # every history of 3 calls (thorough: 4), plus simulated behaviours of 10 calls
+                behs, r2 = tlc.behaviours("MC_Live", cfg_text=gen % (mode, tr, ov, chk.pick(3, 4)), timeout=3000)
                 chk.add_tlc(r2, "M2-%s" % mode)
+                sims, r3 = tlc.behaviours("MC_Live", cfg_text=gen % (mode, tr, ov, 10), simulate="num=%d" % chk.pick(300, 8000),
+                                          depth=12, seed=chk.seed + 1, timeout=3000)
+                chk.add_tlc(r3, "M2-simulate-%s" % mode)
                 spec = dict(cls="live", mode="last", transient=tr == "TRUE", overflow=ov, H=2)
-                for b in behs:
+                for b in behs + sims:
                     cases.append((spec, from_tlc(b["beh"], "live")))
         chk.notes["tlc_generated_histories"] = len(cases)
         chk.mark("M1+M2")
